@@ -4,8 +4,8 @@ CG = dict(units=["type.c"], mode="dfcc", enforce="gen_expr", rec=True, replace=[
 META = dict(
     level="proof",
     claim="The emitted compare-and-swap and exchange sequences, executed on the ghost x86 machine for every object size, address, memory content and operand: exactly one locked read-modify-write instruction touches the object; CAS succeeds iff the object equals the expected value (at the object's width), then stores the new value, otherwise leaves the object unchanged and writes its current value into the expected-value object; exchange stores the new value and returns the previous contents as a value of the object's type; nothing else is written and the stack is balanced. Sequential semantics only.",
-    note="Assumed: a lock-prefixed cmpxchg and xchg-with-memory are atomic on x86-64 (that is what makes the sequential facts imply linearizability); interleavings themselves are outside contract-based sequential verification. Not covered: the op= -> CAS-loop rewriting in parse.c, stdatomic.h macros.",
-    functions=["codegen.c:gen_expr", "codegen.c:reg_ax", "codegen.c:reg_dx", "codegen.c:load"],
+    note="Assumed: a lock-prefixed cmpxchg and xchg-with-memory are atomic on x86-64 (that is what makes the sequential facts imply linearizability); interleavings themselves are outside contract-based sequential verification. op= on an atomic object (integer or pointer) is rewritten to the compare-exchange retry loop with the original operator, and add_type converts the value operands of both primitives to the object's type. Not covered: stdatomic.h macros, atomic members (A.x op= is handled before the atomic check).",
+    functions=["codegen.c:gen_expr", "codegen.c:reg_ax", "codegen.c:reg_dx", "codegen.c:load", "parse.c:to_assign", "type.c:add_type"],
     trusted_base=["CBMC 6.11", "spec/x86_ghost.h", "x86-64 atomicity of lock cmpxchg / xchg"],
     assumptions=["operands are abstract side-effect-free expressions", "lock-prefixed RMW instructions are atomic"],
 )
@@ -17,4 +17,11 @@ def jobs(tier):
                 js.append(Job(name=f"{'exch' if ex else 'cas'}-{sz}-{'u' if uns else 's'}", src="atomic.c", group="C16 atomic primitives",
                               defs={"SZ": str(sz), "UNS": str(uns), "EXCH": str(ex)},
                               sample=f"{'exchange' if ex else 'compare-and-swap'} on a {sz}-byte {'unsigned' if uns else 'signed'} object", **CG))
+    for ex in (0, 1):
+        js.append(Job(name=f"atomtype-{'exch' if ex else 'cas'}", src="atomtype.c", group="C16.4 typing of the primitives", defs={"EXCH": str(ex)}, units=["parse.c"], mode="plain",
+                      cut=["error", "error_tok", "error_at", "warn_tok"], timeout=180, replay=None, sample=f"add_type on {'ND_EXCH' if ex else 'ND_CAS'} for every object/value type pair"))
+    for k in ("ND_ADD", "ND_SUB", "ND_BITAND", "ND_SHL"):
+        js.append(Job(name=f"toassign-atomic-{k}", src="../C01/toassign.c", group="C16.3 op= on an atomic object", defs={"KIND": k, "FORM": "2"}, units=["type.c", "hashmap.c", "strings.c"], mode="plain",
+                      cut=["error", "error_tok", "error_at", "warn_tok"], havoc=["format"], cut_defined=["rehash"], timeout=180, unwind=20, replay=None,
+                      sample=f"to_assign(A {k}= B) with an _Atomic A (integer or pointer object): compare-exchange retry loop"))
     return js
